@@ -8,6 +8,7 @@ import (
 	"io"
 	"net"
 	"os"
+	"regexp"
 	"testing"
 
 	"github.com/emersion/go-sasl"
@@ -27,6 +28,7 @@ type Cfg struct {
 	Norm  string `json:"norm"`
 	Tbl   string `json:"tbl"`   // "mem" | "sql"
 	Defer bool   `json:"defer"` // defer_sender_reject
+	Dom   string `json:"dom"`   // domain of the e-mail shaped user: "ascii" | "idn" (names.go:setDom)
 	Len   int    `json:"len"`
 }
 
@@ -75,9 +77,17 @@ func mapConfig(id string) (directive string, err error) {
 	case "s_proj":
 		return static(ua, ub, ub, ub), nil
 	case "r_strip":
-		return "auth_map regexp \"^(.+)@example\\.org$\" \"$1\"\n", nil
+		return "auth_map regexp \"^(.+)@" + regexp.QuoteMeta(curDom) + "$\" \"$1\"\n", nil
 	case "r_append":
-		return "auth_map regexp \"^(.+)$\" \"$1@example.org\"\n", nil
+		return "auth_map regexp \"^(.+)$\" \"$1@" + curDom + "\"\n", nil
+	// regexp maps that rely on full_match (the default: "the provided regular expression
+	// should match the whole string") instead of writing the anchors themselves
+	case "r_class": // a negated character class: the pattern contains '^' but no anchor
+		return "auth_map regexp \"" + regexp.QuoteMeta(ua) + "(\\+[^@]*)?@" + regexp.QuoteMeta(curDom) + "\" \"" + ua + "\"\n", nil
+	case "r_dollar": // an inner '$' (end of name instead of the domain)
+		return "auth_map regexp \"" + regexp.QuoteMeta(ua) + "(@" + regexp.QuoteMeta(curDom) + "|$)\" \"" + ua + "\"\n", nil
+	case "r_alt": // an alternation at top level
+		return "auth_map regexp \"" + regexp.QuoteMeta(ub) + "|" + regexp.QuoteMeta(ua) + "\\+[a-z]+@" + regexp.QuoteMeta(curDom) + "\" \"" + ua + "\"\n", nil
 	case "b_local":
 		return "auth_map email_localpart\n", nil
 	case "b_localopt":
@@ -105,6 +115,7 @@ type world struct {
 	ln   *authkit.PipeListener
 	cl   *authkit.Client
 	opNo int
+	sent Sp // the user name of the exchange in progress
 }
 
 func newWorld(t *testing.T, b Behaviour, tr *vtrace.Tracer) *world {
@@ -237,7 +248,7 @@ func (w *world) exchange(mech string, cl sasl.Client, withIR bool) saslResult {
 			if !called {
 				return saslResult{false, noID}
 			}
-			return saslResult{true, spellingOf(identity)}
+			return saslResult{true, w.idOf(identity)}
 		}
 		if first && !withIR {
 			// the server asked for the first response; LOGIN's first challenge is "Username:"
@@ -261,11 +272,23 @@ func (w *world) exchange(mech string, cl sasl.Client, withIR bool) saslResult {
 	return saslResult{}
 }
 
+// idOf translates a reported identity back into a spelling; when it is the very
+// string the client sent, it is that spelling (two variants of a name may be the
+// same string, e.g. the A-label variant of a name without a domain).
+func (w *world) idOf(identity string) Sp {
+	if w.sent.U != "" && w.sent.String() == identity {
+		return w.sent
+	}
+	return spellingOf(identity)
+}
+
 func (w *world) plain(sp Sp, pw, az string) saslResult {
+	w.sent = sp
 	return w.exchange(sasl.Plain, sasl.NewPlainClient(authzid(sp, az), sp.String(), password(pw)), w.flavour())
 }
 
 func (w *world) login(sp Sp, pw string) saslResult {
+	w.sent = sp
 	return w.exchange(sasl.Login, sasl.NewLoginClient(sp.String(), password(pw)), w.flavour())
 }
 
@@ -409,7 +432,11 @@ func runBehaviour(t *testing.T, b Behaviour, out *bufio.Writer) {
 	if b.Cfg.Tbl == "" {
 		b.Cfg.Tbl = "mem"
 	}
-	tr.Emit("Cfg", vtrace.Ev{"map": b.Cfg.Map, "norm": b.Cfg.Norm, "tbl": b.Cfg.Tbl, "defer": b.Cfg.Defer})
+	if b.Cfg.Dom == "" {
+		b.Cfg.Dom = "ascii"
+	}
+	setDom(b.Cfg.Dom)
+	tr.Emit("Cfg", vtrace.Ev{"map": b.Cfg.Map, "norm": b.Cfg.Norm, "tbl": b.Cfg.Tbl, "defer": b.Cfg.Defer, "dom": b.Cfg.Dom})
 	w := newWorld(t, b, tr)
 	defer w.close()
 	for _, s := range b.Hist {
